@@ -322,6 +322,16 @@ def runtime_contract(rec, cls):
         env = unjson_env(envj)
         env['Sens'] = np.array(envj['Sens'], dtype=float).reshape(int(env[n]), int(env[p]))
         thv = [env[t] for t in th]
+        if kind == 'inside':
+            # callers may keep one array and overwrite it in place between evaluations (the results are functions of the *contents* passed in):
+            # the model instance first sees other contents in the very same array objects
+            o_buf, m_buf = np.array(env['O'], dtype=float) * 1.3 + 0.1, np.array(env['M'], dtype=float) * 0.8 + 0.2
+            em.compute_log_likelihood(thv, m_buf, o_buf)
+            em.compute_pointwise_ll(thv, m_buf, o_buf)
+            em.compute_sensitivities(thv, m_buf, env['Sens'], o_buf)
+            o_buf[:] = env['O']
+            m_buf[:] = env['M']
+            env['O'], env['M'] = o_buf, m_buf
         ll = em.compute_log_likelihood(thv, env['M'], env['O'])
         pw = em.compute_pointwise_ll(thv, env['M'], env['O'])
         sc, gr = em.compute_sensitivities(thv, env['M'], env['Sens'], env['O'])
@@ -359,7 +369,7 @@ def runtime_contract(rec, cls):
                 return 'sensitivity w.r.t. error parameter %d is %r, expected %r' % (t_, float(gr[int(env[p]) + t_]), w_)
         return None
     rec.native_check('%s/runtime-contract' % cls, funcs, list(formula_cases()) + list(long_cases()) + list(support_cases()), one,
-                     'seeded instances inside the support (n in 1..5, p in 1..3, random values) compared with the numerically evaluated '
+                     'seeded instances inside the support (n in 1..5, p in 1..3, random values; passed in arrays that held other contents in an earlier evaluation of the same model instance) compared with the numerically evaluated '
                      'specification and its derivative; vectors of 400 observations with outputs of magnitude 1e3 / 1e-3 / 1 (IEEE range); boundary instances of the support clause (each scale parameter 0 and negative; '
                      'log-normal: negative/zero outputs at first/last/all/middle positions); distinct by full input')
 
